@@ -564,7 +564,9 @@ func (i *Iterator[T]) ProcessParallel(
 		operation := fn.WithRecover().WithErrorFilter(func(err error) error {
 			return ft.WhenDo(
 				!opts.CanContinueOnError(err),
-				ft.Wrapper(io.EOF),
+				// stop the other workers (and the splitting
+				// goroutine) as well.
+				func() error { cancel(); return io.EOF },
 			)
 		})
 
